@@ -14,7 +14,7 @@ import os
 import random
 import time
 
-from common import (BIN, ToolError, Work, build_harness, cache_get, cache_put, cfg_with, log, seed,
+from common import (cap_diverse, BIN, ToolError, Work, build_harness, cache_get, cache_put, cfg_with, log, seed,
                     sh, tlc, tree_key)
 
 BIG_BUDGET_S = 1500     # per large configuration (thorough tier)
@@ -219,7 +219,7 @@ def pipeline(kind, tier):
                 samples.append({"schedule": json.loads(sl[0]),
                                 "trace_excerpt": [json.dumps(x, sort_keys=True) for x in lines[1][:25]]})
             os.remove(rv["trace"])
-        res.update({"runs": runs, "events": events, "viol": viol[:200], "n_viol": len(viol),
+        res.update({"runs": runs, "events": events, "viol": cap_diverse(viol), "n_viol": len(viol),
                     "drift": drift[:20], "n_drift": len(drift), "samples": samples,
                     "wall_trace_b": round(wall_b, 1), "wall_trace_a": round(wall_a, 1),
                     "wall_s": round(time.time() - t0, 1)})
